@@ -477,32 +477,50 @@ def run(rep, tier):
         want[ax + "s"] = ("Pos", ax, lambda raw, i_=i_: raw * S("getBox(top)(%d,%d)" % (i_, i_)))
         want["v" + ax] = ("Vel", ax, lambda raw: raw * a2n)
         want["f" + ax] = ("F", ax, lambda raw: raw * k2j / a2n)
-    seen = {}
-    for e in fol.events:
-        if e["kind"] != "store":
-            continue
-        m_ = re.match(r"^\w+->(Pos|Vel|F)\(\)\.([xyz])\(\)$", e["target"])
-        names = [c for c, pol, _ in e["guards"] if pol and isinstance(c, tuple) and c[0] == "==" and str(c[2]).startswith('"')]
-        if not m_ or not names or isinstance(e["value"], (tuple, sp.Matrix)):
-            continue
-        col = str(names[-1][2]).strip('"')
-        if col not in want:
+    from vsa.cases import executes
+
+    class OneHot(dict):
+        """exactly the column `col` is the current one"""
+        def __init__(self, col):
+            dict.__init__(self, {"_": True})          # non-empty: `atoms or {}` keeps this object
+            self.col = col
+
+        def __contains__(self, k):
+            return isinstance(k, str) and k.startswith("COL=")
+
+        def __getitem__(self, k):
+            return k == "COL=" + self.col
+
+        def get(self, k, d=None):
+            return self[k] if k in self else d
+
+    def col_oracle(lf):
+        if isinstance(lf, tuple) and len(lf) == 3 and lf[0] in ("==", "!="):
+            lit = [x for x in lf[1:] if re.match(r'^"[^"]*"$', str(x))]
+            if len(lit) == 1:
+                return ("COL=" + str(lit[0]).strip('"'), lf[0] == "==")
+        return None
+    cstores = [(e, re.match(r"^\w+->(Pos|Vel|F)\(\)\.([xyz])\(\)$", e["target"])) for e in fol.events if e["kind"] == "store"]
+    cstores = [(e, m_) for e, m_ in cstores if m_ and not isinstance(e["value"], (tuple, sp.Matrix))]
+    conds_l = getattr(fol, "conds", {})
+    for col in want:
+        # a store handles the column unless its path condition is false when this column (and no other) is the current one
+        hit = [(e, m_) for e, m_ in cstores if executes(e, None, OneHot(col), col_oracle, conds_l) is not False]
+        if not hit:
+            rep.broken("R20.5", "LAMMPS dump reader: no store for column '%s' recognised" % col)
             continue
         q, ax, fn = want[col]
-        val = e["value"]
-        raws = [a for a in val.atoms(sp.Function) if str(a.func) in ("stod", "lexical_cast", "stof", "atof")]
-        # the box symbol's parameter name may differ: normalise getBox(<anything>)
-        norm = {x: S(re.sub(r"^getBox\([^)]*\)", "getBox(top)", str(x))) for x in val.free_symbols if str(x).startswith("getBox(")}
-        val = val.xreplace(norm)
-        ok = len(raws) == 1 and m_.group(1) == q and m_.group(2) == ax and sp.simplify(val - fn(raws[0])) == 0
-        seen[col] = True
-        rep.check(ok, "R20.5", "lammps-dump|" + col, "column %s -> %s.%s = raw * %s" % (col, q, ax, sp.simplify(fn(S("raw")) / S("raw"))),
-                  "LAMMPSDumpReader::ReadAtoms stores column '%s' into %s.%s as %s; required %s: the length conversion is applied %s, so the value is not in the "
-                  "same unit as the box and the other coordinate styles" % (col, m_.group(1), m_.group(2), str(val)[:120], str(fn(S("raw"))),
-                                                                          "twice" if (col.endswith("s") and val.has(a2n)) else "inconsistently"), fra.loc(e["node"]), sample=(col in ("x", "xs", "fx")))
-    for col in want:
-        if col not in seen:
-            rep.broken("R20.5", "LAMMPS dump reader: no store for column '%s' recognised" % col)
+        for e, m_ in hit:
+            val = e["value"]
+            raws = [a for a in val.atoms(sp.Function) if str(a.func) in ("stod", "lexical_cast", "stof", "atof")]
+            # the box symbol's parameter name may differ: normalise getBox(<anything>)
+            norm = {x: S(re.sub(r"^getBox\([^)]*\)", "getBox(top)", str(x))) for x in val.free_symbols if str(x).startswith("getBox(")}
+            val = val.xreplace(norm)
+            ok = len(hit) == 1 and len(raws) == 1 and m_.group(1) == q and m_.group(2) == ax and sp.simplify(val - fn(raws[0])) == 0
+            rep.check(ok, "R20.5", "lammps-dump|" + col, "column %s -> %s.%s = raw * %s" % (col, q, ax, sp.simplify(fn(S("raw")) / S("raw"))),
+                      "LAMMPSDumpReader::ReadAtoms stores column '%s' into %s.%s as %s; required %s: the length conversion is applied %s, so the value is not in the "
+                      "same unit as the box and the other coordinate styles" % (col, m_.group(1), m_.group(2), str(val)[:120], str(fn(S("raw"))),
+                                                                              "twice" if (col.endswith("s") and val.has(a2n)) else "inconsistently"), fra.loc(e["node"]), sample=(col in ("x", "xs", "fx")))
     frb = FL.one(LR + "ReadBox")
     rep.analysed(frb)
     fob = Fold(frb, record_calls=r"Topology::setBox$").run()
